@@ -22,6 +22,19 @@ struct Case {
 	src: Src,
 }
 
+/// the last tile of level z on the Hilbert curve and the first tiles of level z+1 with equal
+/// payloads (one PMTiles run over the level border, when the encoder merges runs)
+fn border_run(spec: &mut SetSpec, r: u32, w: u32, h: u32) {
+	let z = 1 + (r % 11) as u8;
+	let size = 1u32 << z;
+	spec.levels = vec![
+		LevelSpec { z, x0: size - w.min(size).min(3), y0: 0, w: w.min(size).min(3), h: h.min(size).min(2), shape: Shape::Dense, seed: r },
+		LevelSpec { z: z + 1, x0: 0, y0: 0, w: 1, h: 1 + (r >> 8) % 2, shape: Shape::Dense, seed: r },
+		LevelSpec { z: z + 1, x0: 2 + (r >> 12) % size, y0: 2 + (r >> 20) % size, w: 1 + (r >> 4) % 3, h: 1, shape: Shape::Dense, seed: r },
+	];
+	spec.pay = vt::model::Pay::Dups { variants: 1 + ((r >> 6) % 2) as u8, len: 20 + (r >> 16) % 100 };
+}
+
 /// tile sets steered towards the shapes the statement names
 fn spec_for(target: Target) -> impl Strategy<Value = SetSpec> {
 	let mut cfg = GenCfg::small(target.pairs());
@@ -53,6 +66,9 @@ fn spec_for(target: Target) -> impl Strategy<Value = SetSpec> {
 			4 => {
 				spec.levels = vec![LevelSpec { z: 31, x0: 0, y0: (1u32 << 31) - 1, w: 2, h: 1, shape: Shape::Dense, seed: r }, LevelSpec { z: 30, x0: (1u32 << 30) - 1, y0: 0, w: 1, h: 1, shape: Shape::Dense, seed: r }];
 			}
+			// the last tile of level z on the Hilbert curve and the first tiles of level z+1 with equal
+			// payloads (one PMTiles run over the level border, when the encoder merges runs)
+			5 | 6 => border_run(&mut spec, r, w, h),
 			_ => {}
 		}
 		spec
@@ -64,8 +80,13 @@ fn strategy() -> impl Strategy<Value = Case> {
 		let target = Target::ALL[t];
 		spec_for(target).prop_map(move |spec| Leaf { spec, kind: if enc { LeafKind::Enc(target, seed) } else { LeafKind::Repo(target) } })
 	});
+	let border = (spec_for(Target::Pmtiles), any::<u32>(), any::<u32>(), 1u32..4, 1u32..3).prop_map(|(mut spec, seed, r, w, h)| {
+		border_run(&mut spec, r, w, h);
+		Leaf { spec, kind: LeafKind::Enc(Target::Pmtiles, seed) }
+	});
 	prop_oneof![
 		5 => leafs.prop_map(|l| Case { src: Src::Leaf(l) }),
+		1 => border.prop_map(|l| Case { src: Src::Leaf(l) }),
 		2 => node(31, 3).prop_map(|n| Case { src: Src::Pipeline(n) }),
 	]
 }
@@ -145,6 +166,14 @@ fn oracle(case: &Case, obs: &mut Obs) -> Result<(), Fail> {
 				special = true;
 			}
 		}
+		let last = |z: u8| Coord::new(z, (1u32 << z) - 1, 0);
+		if (1u8..31).any(|z| s.tiles.get(&last(z)).is_some_and(|a| s.tiles.get(&Coord::new(z + 1, 0, 0)) == Some(a))) {
+			obs.label("equal-payloads-across-level-border");
+			if let Src::Leaf(Leaf { kind: LeafKind::Enc(Target::Pmtiles, seed), .. }) = &case.src {
+				let l = layout_pmtiles(*seed);
+				obs.label_if(l.runs && l.share, "pmtiles-run-across-level-border");
+			}
+		}
 		if s.has_zoom_gap() {
 			obs.label("zoom-gap");
 			special = true;
@@ -159,7 +188,7 @@ fn main() {
 	let mut check = Check::from_args(
 		"C03",
 		"exploration",
-		"tile sets steered to the shapes of the statement (extreme rows only in off-centre columns, single tiles, border coordinates of levels 0/30/31, zoom gaps, sparse and diamond shapes) as containers of all five formats (written by the repository or by the harness's independent encoders) and as pipelines (overlay, merge, filters, nested); oracle: every coordinate at which a lookup returns a tile lies inside the advertised pyramid, and for mbtiles/pmtiles/tar/directory the advertised level boxes equal the bounding boxes of the stored tiles exactly; non-trivial = source with an off-centre extreme row, a zoom gap or a level 0/31 tile",
+		"tile sets steered to the shapes of the statement (extreme rows only in off-centre columns, single tiles, border coordinates of levels 0/30/31, zoom gaps, sparse and diamond shapes, equal payloads on the last tile of a level and the first of the next in Hilbert order) as containers of all five formats (written by the repository or by the harness's independent encoders) and as pipelines (overlay, merge, filters, nested); oracle: every coordinate at which a lookup returns a tile lies inside the advertised pyramid, and for mbtiles/pmtiles/tar/directory the advertised level boxes equal the bounding boxes of the stored tiles exactly; non-trivial = source with an off-centre extreme row, a zoom gap or a level 0/31 tile",
 	);
 	check.assume("tiles with empty payloads are not generated (several formats cannot tell them from absent tiles)");
 	vt::engine::watchdog(3600);
